@@ -698,8 +698,118 @@ pub fn run(run: &Run) {
             Ok(Err(e)) => run.violation(&format!("C08/typed-wrappers/{}", e), "typed-wrappers", "typed", i, json!({"problem": e})),
             Err(p) => run.violation(&format!("C08/typed-wrappers-panic/{}", first_line(&p)), "no-panic", "typed", i, json!({"panic": p})),
         }
+        // every nesting of the typed containers
+        for (name, res) in typed_nestings(&mut r) {
+            l.evals += 1;
+            match guard(|| res) {
+                Ok(Ok(())) => l.count("typed_nestings_ok"),
+                Ok(Err(e)) => run.violation(
+                    &format!("C08/typed-wrappers/nesting/{}", e.chars().map(|c| if c.is_ascii_digit() { '#' } else { c }).take(70).collect::<String>()),
+                    "typed-wrappers",
+                    "typed",
+                    i,
+                    json!({"static_type": name, "problem": e}),
+                ),
+                Err(p) => run.violation(&format!("C08/typed-wrappers-panic/{}", first_line(&p)), "no-panic", "typed", i, json!({"panic": p})),
+            }
+        }
         run.distinct(hash_str(&format!("t{}", i)));
     });
+}
+
+/// A statically typed value must say (through the type of the converted value
+/// and the element types declared inside it) exactly the nested
+/// type it is, be accepted by a field of that type and refused by a field of
+/// any other type.
+fn check_typed_value<V: Into<LhsValue<'static>>>(v: V, want: &RType, others: &[RType]) -> Result<(), String> {
+    let lv: LhsValue<'static> = v.into();
+    if lv.get_type() != want.to_engine() {
+        return Err(format!("converted value reports type {:?} instead of {}", lv.get_type(), want.short()));
+    }
+    let rv = RV::from_lhs(&lv).map_err(|e| format!("converted {}: {}", want.short(), e))?;
+    if rv.ty() != *want {
+        return Err(format!("converted value is a {} instead of a {}", rv.ty().short(), want.short()));
+    }
+    let mut b = wirefilter::SchemeBuilder::new();
+    b.add_field("right", want.to_engine()).unwrap();
+    for (k, o) in others.iter().enumerate() {
+        b.add_field(&format!("other{}", k), o.to_engine()).unwrap();
+    }
+    let s = b.build();
+    let mut ctx = ExecutionContext::<()>::new(&s);
+    for k in 0..others.len() {
+        if others[k] == *want {
+            continue;
+        }
+        let f = s.get_field(&format!("other{}", k)).unwrap();
+        if ctx.set_field_value(f, lv.clone()).is_ok() {
+            return Err(format!("a {} was accepted by a field of type {}", want.short(), others[k].short()));
+        }
+        if ctx.get_field_value(f).is_some() {
+            return Err("a refused set stored something".into());
+        }
+    }
+    let f = s.get_field("right").unwrap();
+    ctx.set_field_value(f, lv).map_err(|e| format!("a {} was refused by a field of its own type: {}", want.short(), e))?;
+    match ctx.get_field_value(f).map(RV::from_lhs) {
+        Some(Ok(back)) if back == rv => Ok(()),
+        other => Err(format!("stored {} reads back as {:?}", want.short(), other.map(|r| r.map(|v| v.ty().short())))),
+    }
+}
+
+fn key(s: &str) -> Box<[u8]> {
+    s.as_bytes().to_vec().into_boxed_slice()
+}
+
+/// Every nesting of the two typed containers up to depth 3 over two element
+/// types (written out: the element type is a compile-time parameter).
+fn typed_nestings(r: &mut Rng) -> Vec<(String, Result<(), String>)> {
+    use RType::{Bool, Int};
+    let a = RType::arr;
+    let m = RType::map;
+    let others = vec![
+        a(Int), m(Int), a(Bool), m(Bool), a(a(Int)), a(m(Int)), m(a(Int)), m(m(Int)), a(a(Bool)), a(m(Bool)), m(a(Bool)), m(m(Bool)),
+        a(a(a(Int))), a(a(m(Int))), a(m(a(Int))), a(m(m(Int))), m(a(a(Int))), m(a(m(Int))), m(m(a(Int))), m(m(m(Int))),
+    ];
+    let x = gen_int(r);
+    let t = r.bool();
+    type A<T> = TypedArray<'static, T>;
+    type M<T> = TypedMap<'static, T>;
+    let ai = || -> A<i64> { [x, 1].into_iter().collect() };
+    let mi = || -> M<i64> { [(key("k"), x)].into_iter().collect() };
+    let ab = || -> A<bool> { [t].into_iter().collect() };
+    let mb = || -> M<bool> { [(key("k"), t)].into_iter().collect() };
+    let mut out: Vec<(String, Result<(), String>)> = Vec::new();
+    macro_rules! case {
+        ($v:expr, $t:expr) => {{
+            let want: RType = $t;
+            out.push((want.short(), check_typed_value($v, &want, &others)));
+        }};
+    }
+    case!(ai(), a(Int));
+    case!(mi(), m(Int));
+    case!(ab(), a(Bool));
+    case!(mb(), m(Bool));
+    case!([ai(), A::new()].into_iter().collect::<A<A<i64>>>(), a(a(Int)));
+    case!([mi()].into_iter().collect::<A<M<i64>>>(), a(m(Int)));
+    case!([(key("a"), ai())].into_iter().collect::<M<A<i64>>>(), m(a(Int)));
+    case!([(key("a"), mi()), (key("b"), M::new())].into_iter().collect::<M<M<i64>>>(), m(m(Int)));
+    case!([ab()].into_iter().collect::<A<A<bool>>>(), a(a(Bool)));
+    case!([mb(), M::new()].into_iter().collect::<A<M<bool>>>(), a(m(Bool)));
+    case!([(key("a"), ab())].into_iter().collect::<M<A<bool>>>(), m(a(Bool)));
+    case!([(key("a"), mb())].into_iter().collect::<M<M<bool>>>(), m(m(Bool)));
+    case!([[ai()].into_iter().collect::<A<A<i64>>>()].into_iter().collect::<A<A<A<i64>>>>(), a(a(a(Int))));
+    case!([[mi()].into_iter().collect::<A<M<i64>>>()].into_iter().collect::<A<A<M<i64>>>>(), a(a(m(Int))));
+    case!([[(key("a"), ai())].into_iter().collect::<M<A<i64>>>()].into_iter().collect::<A<M<A<i64>>>>(), a(m(a(Int))));
+    case!([[(key("a"), mi())].into_iter().collect::<M<M<i64>>>()].into_iter().collect::<A<M<M<i64>>>>(), a(m(m(Int))));
+    case!([(key("z"), [ai()].into_iter().collect::<A<A<i64>>>())].into_iter().collect::<M<A<A<i64>>>>(), m(a(a(Int))));
+    case!([(key("z"), [mi()].into_iter().collect::<A<M<i64>>>())].into_iter().collect::<M<A<M<i64>>>>(), m(a(m(Int))));
+    case!([(key("z"), [(key("a"), ai())].into_iter().collect::<M<A<i64>>>())].into_iter().collect::<M<M<A<i64>>>>(), m(m(a(Int))));
+    case!([(key("z"), [(key("a"), mi())].into_iter().collect::<M<M<i64>>>())].into_iter().collect::<M<M<M<i64>>>>(), m(m(m(Int))));
+    // empty outer containers say their type too
+    case!(A::<M<i64>>::new(), a(m(Int)));
+    case!(M::<M<A<bool>>>::new(), m(m(a(Bool))));
+    out
 }
 
 pub fn gen_type(r: &mut Rng, max_depth: usize) -> RType {
